@@ -42,6 +42,10 @@ pub enum Scenario {
     /// an SZX snapshot (zlib pages, AY/keyboard/mouse chunks) of a program that keeps writing the
     /// screen and the border
     SzxSnap,
+    /// fast load on, a one-block tape playing in real time from the start: it runs to its end
+    /// (the deck stops and rewinds itself) around frame 152, around frame 170 the program calls ROM
+    /// LD-BYTES: whether the trap fast-loads must not depend on how many calls the 200 frames are cut into
+    TapeEndTrap,
     /// a program that calls ROM LD-BYTES timed so that the instruction reaching the fast-load trap
     /// address ends `offset` T-states after (+) / before (-) the end of the second frame: the event
     /// raised by an instruction and the end of a frame (and of a call) coincide
@@ -166,7 +170,7 @@ fn build(sc: Scenario, m128: bool, asset: AssetKind) -> DEmu {
     let mut o = Opts::machine(m128);
     o.sound = true;
     o.ay = m128;
-    o.fastload = matches!(sc, Scenario::TapeFast | Scenario::TrapEdge(_));
+    o.fastload = matches!(sc, Scenario::TapeFast | Scenario::TrapEdge(_) | Scenario::TapeEndTrap);
     o.autoload = matches!(sc, Scenario::TapeFast | Scenario::TapeReal);
     let mut e = Emulator::<DHost>::new(rig::settings(&o), DCtx).ok().expect("Emulator::new");
     match sc {
@@ -176,6 +180,28 @@ fn build(sc: Scenario, m128: bool, asset: AssetKind) -> DEmu {
             if sc == Scenario::TapeReal {
                 e.play_tape();
             }
+        }
+        Scenario::TapeEndTrap => {
+            use crate::formats::{sna128, sna48, MState};
+            let blk = crate::tapemodel::std_block(0xFF, &[0x11, 0x22, 0x33, 0x44]);
+            e.load_tape(Tape::Tap(make_asset(&crate::tapemodel::tap_image(&[blk]), asset, "tape"))).ok().expect("load_tape");
+            // DI; LD DE,7; outer: LD BC,0; inner: DEC BC; LD A,B; OR C; JR NZ,inner; DEC DE; LD A,D; OR E; JR NZ,outer
+            // (7 x 1.7M T = 170 frames); LD IX,9000; LD DE,4; LD A,FF; SCF; CALL 0556; LD A,A5; LD (A000),A; JR $
+            let code = [
+                0xF3, 0x11, 0x07, 0x00, 0x01, 0x00, 0x00, 0x0B, 0x78, 0xB1, 0x20, 0xFB, 0x1B, 0x7A, 0xB3, 0x20, 0xF3, 0xDD, 0x21, 0x00, 0x90, 0x11, 0x04, 0x00, 0x3E, 0xFF, 0x37, 0xCD, 0x56, 0x05, 0x3E, 0xA5, 0x32, 0x00,
+                0xA0, 0x18, 0xFE,
+            ];
+            let mut st = MState::new(m128, 1);
+            st.port7ffd = 0x10;
+            st.regs.pc = 0x8000;
+            st.regs.sp = 0xBF00;
+            st.regs.iff1 = false;
+            st.regs.iff2 = false;
+            st.regs.im = 1;
+            st.banks[2][..code.len()].copy_from_slice(&code);
+            let f = if m128 { sna128(&st) } else { sna48(&st) };
+            e.load_snapshot(Snapshot::Sna(make_asset(&f, AssetKind::Buffer, "endtrap"))).ok().expect("load_snapshot");
+            e.play_tape();
         }
         Scenario::TrapEdge(offset) => {
             e.load_tape(Tape::Tap(make_asset(&tape_bytes(), asset, "tape"))).ok().expect("load_tape");
@@ -552,11 +578,34 @@ pub fn run(tier: Tier, seed: u64, replay: Option<String>) -> i32 {
         ctx.add_nontrivial(n);
         ctx.outcome(base.values().fold(off as u64, |a, b| fnv_mix(a, b.0)));
     });
+    // long calls: a tape that ends inside a call, a fast-load trap later in the same call
+    par_for(2, 1, |j| {
+        let m128 = j == 1;
+        let sc = Scenario::TapeEndTrap;
+        let k = 200usize;
+        let base = match run_driving(sc, m128, k + 4, &Driving::Default, None) {
+            Ok(b) => b,
+            Err(e) => {
+                ctx.violation("C16:default:TapeEndTrap:error", &format!("default driving failed: {}", e), json!({"kind":"driving","scenario":"TapeEndTrap","m128":m128}));
+                return;
+            }
+        };
+        let mut n = 1u64;
+        for parts in [vec![200usize], vec![100, 100], vec![50, 50, 50, 50], vec![151, 49], vec![1, 199]] {
+            let d = Driving::Composition(parts, false);
+            let g = run_driving(sc, m128, k, &d, None);
+            compare(&ctx, sc, m128, &base, &g, &d, "frames-per-call:tape-ends-inside-the-call");
+            n += 1;
+        }
+        ctx.add_eval(n);
+        ctx.add_nontrivial(n);
+        ctx.outcome(base.values().fold(0xE4D, |a, b| fnv_mix(a, b.0)));
+    });
     ctx.sample(json!({"scenario":"TapeFast","m128":true,"driving":"Composition([2, 1, 3])"}));
     ctx.note("frames", json!(k));
     ctx.note("not_judged", json!("how many frames a Max-mode call emulates (the stopwatch decides); audio when it is not drained every frame or the call spans several frames"));
     ctx.finish(
-        "scenarios {ROM boot, ROM with keys pressed/released at frame boundaries, tape fast load with autoload, real-time tape load, AY/beeper tune snapshot (SNA), screen/border-writing program from an SZX snapshot with zlib pages} x {48K,128K}, plus a program whose call of ROM LD-BYTES reaches the fast-load trap -6..+8 T around the end of a frame (event and frame/call end coincide; compositions of 4 frames, Max mode, breakpoints on the trap); deviations from the default driving: every composition of the K frames into FrameCount(n) calls with the stopwatch always at 0 and always past the limit (each call must emulate exactly n frames), Max mode with every stopwatch reading chosen from {0, limit, limit+1 ns} within a deviation bound, breakpoint stops at subsets of 8 ROM addresses (incl. the fast-load trap address 056B) and at every instruction, sound off, every drain/no-drain pattern, the same file bytes through BufferCursor / chunked reads {1,2,3,127,128,129} / a real file / GzipAsset; at every frame boundary a driving stops at, the digest of registers, all RAM, paging, frame clock, both frame buffers (and audio where comparable) must equal the default driving's digest of that frame; the default is run twice. distinct_nontrivial = drivings executed",
+        "scenarios {ROM boot, ROM with keys pressed/released at frame boundaries, tape fast load with autoload, real-time tape load, AY/beeper tune snapshot (SNA), screen/border-writing program from an SZX snapshot with zlib pages} x {48K,128K}, plus a program whose call of ROM LD-BYTES reaches the fast-load trap -6..+8 T around the end of a frame (event and frame/call end coincide; compositions of 4 frames, Max mode, breakpoints on the trap), and a 200-frame run in which a playing tape ends inside a call and the fast-load trap is reached later in the same call (calls of 200, 100, 50, 151+49, 1+199 frames); deviations from the default driving: every composition of the K frames into FrameCount(n) calls with the stopwatch always at 0 and always past the limit (each call must emulate exactly n frames), Max mode with every stopwatch reading chosen from {0, limit, limit+1 ns} within a deviation bound, breakpoint stops at subsets of 8 ROM addresses (incl. the fast-load trap address 056B) and at every instruction, sound off, every drain/no-drain pattern, the same file bytes through BufferCursor / chunked reads {1,2,3,127,128,129} / a real file / GzipAsset; at every frame boundary a driving stops at, the digest of registers, all RAM, paging, frame clock, both frame buffers (and audio where comparable) must equal the default driving's digest of that frame; the default is run twice. distinct_nontrivial = drivings executed",
         false,
         &["frame boundaries are identified by the hook frame counter", "real file assets live under harness/target/c16-tmp and are unlinked immediately"],
     )
